@@ -95,3 +95,32 @@ def studentScope (sampleNames instructor siblings : List String) (v : String) : 
   sampleNames.contains v && !(instructor.contains v && sampleNames.contains v) && !siblings.contains v
 
 end Rs
+
+namespace Rs
+open C03
+/-! ### SumGrader / IntegralGrader: which scope each entry of the student's evaluation sees (fix F13) -/
+
+/-- the entries of a summation / integration problem that are formulas -/
+inductive Entry | lower | upper | body
+  deriving DecidableEq, Repr
+
+/-- the scope an entry is evaluated in during the STUDENT's evaluation: entries the student types (`input_positions[key]` set) see the
+sample with the instructor variables scrubbed; entries taken from the author's answer see the whole sample -/
+def entryScope (sample instr : List String) (asked : Entry → Bool) (e : Entry) (v : String) : Bool :=
+  if asked e then studentScope sample instr [] v else sample.contains v
+
+/-- the dummy (summation / integration) variable is bound while the body is evaluated -/
+def bodyScope (sample instr : List String) (asked : Entry → Bool) (dummy : String) (v : String) : Bool :=
+  v == dummy || entryScope sample instr asked .body v
+
+/-- `get_limits_and_funcs` (lower, then upper) followed by the evaluation of the summand / integrand: the first scope error, with its entry -/
+def sumScopeCheck (sample instr : List String) (funcs sufs : String → Bool) (asked : Entry → Bool) (dummy : String)
+    (scLower scUpper scBody : Sc) : Option (Entry × ScopeErr) :=
+  match checkScope (entryScope sample instr asked .lower) funcs sufs scLower with
+  | some e => some (.lower, e)
+  | none =>
+    match checkScope (entryScope sample instr asked .upper) funcs sufs scUpper with
+    | some e => some (.upper, e)
+    | none => (checkScope (bodyScope sample instr asked dummy) funcs sufs scBody).map (fun e => (.body, e))
+
+end Rs
